@@ -90,3 +90,56 @@ def mk_tree_len(P, el, attr=None):
                 x=np.array([p[0] for p in pos], dtype=np.float32), y=np.array([p[1] for p in pos], dtype=np.float32),
                 z=np.array([p[2] for p in pos], dtype=np.float32), r=np.array([a[3] for a in attr], dtype=np.float32),
                 tag=np.arange(n, dtype=np.int32) + 100), pos
+
+
+def pre_state(P, k):
+    """a topology that differs from P in the parent of one node (chosen by k), or None: (P', i) with P'[i] != P[i], P' well formed"""
+    n = len(P)
+    if n < 3:
+        return None
+    i = 1 + k % (n - 1)
+    below = {i}
+    grew = True
+    while grew:
+        grew = False
+        for j in range(n):
+            if P[j] in below and j not in below:
+                below.add(j); grew = True
+    cand = [j for j in range(n) if j not in below and j != P[i]]
+    if not cand:
+        return None
+    Q = list(P); Q[i] = cand[k % len(cand)]
+    return Q, i
+
+
+def via_edit(c, P, build, warm):
+    """history variant of a case (one in four): build the tree with one node hanging elsewhere, run the queries (warm), then re-parent that node in
+    place through its handle so that the tree is the case's tree; anything the library remembered about the earlier shape is now stale"""
+    k = vid(c)
+    ps = pre_state(P, k // 4) if k % 4 == 3 else None
+    if ps is None:
+        return build(P)
+    Q, i = ps
+    t = build(Q)
+    warm(t)
+    if (k // 4) % 2:
+        t = t.copy()
+    t.node(i).pid = P[i]
+    return t
+
+
+def other_trees():
+    """a few fixed trees a transform object is applied to before the case's tree (one case in three): objects must not carry state between calls"""
+    a = mk_tree_len([-1, 0, 1, 1, 0, 4, 4], [1, 2, 1, 3, 1, 1, 2])[0]
+    b = mk_tree_len([-1, 0], [1, 1])[0]
+    return [a, b]
+
+
+def reused(tf, c):
+    if vid(c) % 3 == 2:
+        for o in other_trees():
+            try:
+                tf(o)
+            except Exception:        # noqa: BLE001 - only the call on the case's own tree is judged
+                pass
+    return tf
